@@ -39,7 +39,7 @@ CHECKS = {
          "Every shape of the stated space: layout, refusals, every in-range index and the equality relation are decided."),
  "C17": ("E2", "exhaustive enumeration of programs x masks x roots x seed pairs x coefficient pairs on the real library; metamorphic linearity oracle with reference error bounds; omitted seed vs ones and reused instance vs fresh instances bitwise", "4.C17",
          "For every program of the stated spaces gradients are linear in the seed and an omitted seed equals ones."),
- "C18": ("E3", "explicit-state BFS over build / pass / clear / drop / clone / fetch / update histories plus all forward/backward/update step sequences of three models on the real library; sole-ownership probe in every state", "4.C18",
+ "C18": ("E3", "explicit-state BFS over build / pass / clear / drop / clone / flag / fetch / update histories plus all forward/backward/update step sequences of three models on the real library; sole-ownership probe in every state", "4.C18",
          "In every reachable state every leaf that the reference says nothing alive derives from converts into a Vec (sole owner)."),
  "C19": ("E1/E2", "the C01-C07 exhaustive spaces re-executed on the library built with the f32 feature against the f64 reference model", "4.C19",
          "Every case of the C01-C07 spaces agrees structurally (dimensions, tracking, refusal) exactly and numerically within the single-precision bound."),
